@@ -57,8 +57,9 @@ type edit struct {
 
 // Cand is a function that the normal form would inline: its single caller and itself.
 type Cand struct {
-	Callee string // types.Func.FullName
-	Caller string // FullName-style name of the function that contains the call ("" for package-level code)
+	Callee string   // types.Func.FullName
+	Caller string   // FullName-style name of the function that contains the call ("" for package-level code)
+	Files  []string // base names of the files of the helper's declaration and of the call
 }
 
 // dryRun, when set, records candidates instead of editing.
@@ -84,6 +85,7 @@ var Only func(fullName string) bool
 func Inline(dir string, env []string, buildFlags []string, modulePath string, patterns ...string) (*Result, error) {
 	res := &Result{Overlay: map[string][]byte{}, done: map[string]bool{}}
 	counter := 0
+	pendingImports = map[string]map[string]string{}
 	for round := 0; round < 8; round++ {
 		fset := token.NewFileSet()
 		cfg := &packages.Config{
@@ -135,6 +137,16 @@ func Inline(dir string, env []string, buildFlags []string, modulePath string, pa
 		if n == 0 {
 			break
 		}
+		for dir, m := range pendingImports {
+			if importNames[dir] == nil {
+				importNames[dir] = map[string]string{}
+			}
+			for n, pth := range m {
+				if _, have := importNames[dir][n]; !have {
+					importNames[dir][n] = pth
+				}
+			}
+		}
 		for file, es := range edits {
 			src, ok := res.Overlay[file]
 			if !ok {
@@ -168,6 +180,7 @@ type candidate struct {
 	stack []ast.Node
 	cfile *ast.File
 	sites []site
+	lit   *ast.FuncLit // the literal, for an immediately invoked function literal (no declaration to remove)
 }
 
 type site struct {
@@ -175,6 +188,9 @@ type site struct {
 	stack []ast.Node
 	cfile *ast.File
 }
+
+// pendingImports: packages that inlined declarations need and that no file of the directory imports yet (dir -> name -> path)
+var pendingImports = map[string]map[string]string{}
 
 // MaxSites is the largest number of call sites a helper may have to be inlined (at each of them).
 const MaxSites = 3
@@ -197,6 +213,7 @@ func inlinePackage(p *packages.Package, fset *token.FileSet, res *Result, edits 
 	}
 	calls := map[*types.Func]int{}
 	values := map[*types.Func]int{}
+	litOf := map[*ast.FuncLit]*candidate{}
 	for _, f := range p.Syntax {
 		var stack []ast.Node
 		ast.Inspect(f, func(n ast.Node) bool {
@@ -205,6 +222,22 @@ func inlinePackage(p *packages.Package, fset *token.FileSet, res *Result, edits 
 				return true
 			}
 			stack = append(stack, n)
+			// an immediately invoked function literal (found := func() bool { ... }()) is a helper with one call site
+			if ce, isCall := n.(*ast.CallExpr); isCall {
+				if lit, isLit := astutil.Unparen(ce.Fun).(*ast.FuncLit); isLit {
+					if sig, ok := info.TypeOf(lit).(*types.Signature); ok && p.Types != nil {
+						pos := fset.Position(lit.Pos())
+						name := fmt.Sprintf("lit@%s:%d", filepath.Base(pos.Filename), pos.Line)
+						obj := types.NewFunc(lit.Pos(), p.Types, name, sig)
+						fd := &ast.FuncDecl{Name: ast.NewIdent(name), Type: lit.Type, Body: lit.Body}
+						lc := &candidate{decl: fd, obj: obj, file: f, lit: lit}
+						lc.sites = append(lc.sites, site{ce, append([]ast.Node{}, stack...), f})
+						decls[obj] = lc
+						calls[obj] = 1
+						litOf[lit] = lc
+					}
+				}
+			}
 			id, ok := n.(*ast.Ident)
 			if !ok {
 				return true
@@ -245,9 +278,14 @@ func inlinePackage(p *packages.Package, fset *token.FileSet, res *Result, edits 
 			return true
 		})
 	}
-	// candidates: one call, no value use
+	// candidates: few calls, no value use (done as it was when the round began: a helper inlined in this round still
+	// counts as a candidate for its callers, whose bodies are being edited and so must wait for the next round)
+	doneBefore := map[string]bool{}
+	for k, v := range res.done {
+		doneBefore[k] = v
+	}
 	isCand := func(c *candidate) bool {
-		return calls[c.obj] >= 1 && calls[c.obj] <= MaxSites && values[c.obj] == 0 && len(c.sites) == calls[c.obj] && !res.done[c.obj.FullName()] &&
+		return calls[c.obj] >= 1 && calls[c.obj] <= MaxSites && values[c.obj] == 0 && len(c.sites) == calls[c.obj] && !doneBefore[c.obj.FullName()] &&
 			(Only == nil || Only(c.obj.FullName()))
 	}
 	n := 0
@@ -281,7 +319,9 @@ func inlinePackage(p *packages.Package, fset *token.FileSet, res *Result, edits 
 						}
 					}
 				}
-				*dryRun = append(*dryRun, Cand{Callee: c.obj.FullName(), Caller: caller})
+				*dryRun = append(*dryRun, Cand{Callee: c.obj.FullName(), Caller: caller, Files: []string{
+					filepath.Base(filepath.Dir(fset.File(c.decl.Pos()).Name())) + "/" + filepath.Base(fset.File(c.decl.Pos()).Name()),
+					filepath.Base(filepath.Dir(fset.File(st.call.Pos()).Name())) + "/" + filepath.Base(fset.File(st.call.Pos()).Name())}})
 			}
 		}
 		return 0
@@ -309,7 +349,7 @@ func inlinePackage(p *packages.Package, fset *token.FileSet, res *Result, edits 
 		for i, st := range c.sites {
 			c.call, c.stack, c.cfile = st.call, st.stack, st.cfile
 			*counter++
-			ok, w := inlineOne(c, p, fset, trial, *counter, trialUsed, i == len(c.sites)-1)
+			ok, w := inlineOne(c, p, fset, trial, *counter, trialUsed, i == len(c.sites)-1 && c.lit == nil)
 			if !ok {
 				okAll, why = false, w
 				break
@@ -350,15 +390,22 @@ func calleeObstacle(c *candidate, info *types.Info, decls map[*types.Func]*candi
 			if w := deferObstacle(c.decl.Body); w != "" {
 				why = w
 			}
-		case *ast.LabeledStmt:
-			why = "labels"
 		case *ast.BranchStmt:
-			if x.Tok == token.GOTO || x.Label != nil {
-				why = "goto / labelled branch"
+			// labels of the body (also those of helpers already inlined into it) are renamed per call site by
+			// rewriteBody; a goto is not supported
+			if x.Tok == token.GOTO {
+				why = "goto"
 			}
 		case *ast.CallExpr:
 			if id, ok := x.Fun.(*ast.Ident); ok && id.Name == "recover" {
 				why = "recover"
+			}
+			if lit, isLit := astutil.Unparen(x.Fun).(*ast.FuncLit); isLit {
+				for _, d := range decls {
+					if d.lit == lit && d != c && isCand(d) {
+						why = "calls another candidate (next round)"
+					}
+				}
 			}
 			// leaf first: calls of other candidates are inlined in an earlier round
 			var fid *ast.Ident
@@ -406,6 +453,50 @@ func calleeObstacle(c *candidate, info *types.Info, decls map[*types.Func]*candi
 			return "multi-value argument"
 		}
 	}
+	// no capture: a name the body uses for something declared outside it (a package-level object, an import, a
+	// universe name) must mean the same thing at the call site (path := path.Join(..) in the caller shadows the import)
+	if pkg := c.obj.Pkg(); pkg != nil {
+		inner := pkg.Scope().Innermost(c.call.Pos())
+		captured := ""
+		ast.Inspect(c.decl.Body, func(n ast.Node) bool {
+			id, ok := n.(*ast.Ident)
+			if !ok || captured != "" {
+				return true
+			}
+			obj := info.Uses[id]
+			if obj == nil {
+				return true
+			}
+			if obj.Pos().IsValid() && obj.Pos() >= c.decl.Pos() && obj.Pos() <= c.decl.End() {
+				return true // declared by the callee itself (parameters, results, locals)
+			}
+			if _, isField := obj.(*types.Var); isField && obj.(*types.Var).IsField() {
+				return true
+			}
+			if obj.Parent() == nil {
+				return true // methods and fields are found through their receiver
+			}
+			if inner == nil {
+				return true
+			}
+			_, at := inner.LookupParent(id.Name, c.call.Pos())
+			switch {
+			case at == obj:
+			case at == nil:
+				// an import of another file: fixed by fixImports
+			default:
+				pa, okA := at.(*types.PkgName)
+				pb, okB := obj.(*types.PkgName)
+				if !(okA && okB && pa.Imported() == pb.Imported()) {
+					captured = id.Name
+				}
+			}
+			return true
+		})
+		if captured != "" {
+			return "the name " + captured + " means something else at the call site"
+		}
+	}
 	return ""
 }
 
@@ -447,7 +538,27 @@ func inlineOne(c *candidate, p *packages.Package, fset *token.FileSet, edits map
 		}
 	}
 	if mode == "" {
+		// nested in the expression of a simple statement (i += f(x); g(f(x)); return g(f(x))): the call is hoisted in
+		// front of the statement when it is the first call the statement evaluates and is evaluated unconditionally
+		switch stmt.(type) {
+		case *ast.ExprStmt, *ast.AssignStmt, *ast.ReturnStmt:
+			if hoistable(stmt, c.call, c.stack[si:], info) {
+				mode = "nested"
+			}
+		}
+	}
+	if mode == "" {
 		return false, "call position not supported"
+	}
+	if mode == "nested" {
+		if si == 0 {
+			return false, "no enclosing node"
+		}
+		switch c.stack[si-1].(type) {
+		case *ast.BlockStmt, *ast.CaseClause, *ast.CommClause:
+		default:
+			return false, "statement position not supported"
+		}
 	}
 	if mode == "expr" || mode == "assign" {
 		// statement of a block / case list, or initialiser of an if
@@ -483,7 +594,21 @@ func inlineOne(c *candidate, p *packages.Package, fset *token.FileSet, edits map
 				return pk.Name()
 			}
 		}
-		return "\x00" + pk.Path() // not imported in the caller's file
+		// not imported in the caller's file (io/fs behind os.FileInfo): imported under its own name when that name is
+		// free at the call site
+		if inner := p.Types.Scope().Innermost(c.call.Pos()); inner != nil {
+			if _, at := inner.LookupParent(pk.Name(), c.call.Pos()); at == nil {
+				dir := filepath.Dir(fset.File(c.cfile.Pos()).Name())
+				if pendingImports[dir] == nil {
+					pendingImports[dir] = map[string]string{}
+				}
+				if have, ok := pendingImports[dir][pk.Name()]; !ok || have == pk.Path() {
+					pendingImports[dir][pk.Name()] = pk.Path()
+					return pk.Name()
+				}
+			}
+		}
+		return "\x00" + pk.Path()
 	}
 	ts := func(t types.Type) string { return types.TypeString(t, qual) }
 	var b bytes.Buffer
@@ -600,6 +725,16 @@ func inlineOne(c *candidate, p *packages.Package, fset *token.FileSet, edits map
 		text = prelude + strings.Join(l, ", ") + " " + s.Tok.String() + " " + outs + "\n"
 	case "return":
 		text = prelude + "return " + outs + "\n"
+	case "nested":
+		if nres != 1 {
+			return false, "nested call with several results"
+		}
+		stText := src(stmt)
+		callText := src(c.call)
+		if strings.Count(stText, callText) != 1 {
+			return false, "statement text not unique"
+		}
+		text = prelude + strings.Replace(stText, callText, outNames[0], 1) + "\n"
 	case "cond":
 		s := stmt.(*ast.IfStmt)
 		if nres != 1 {
@@ -653,6 +788,57 @@ func inlineOne(c *candidate, p *packages.Package, fset *token.FileSet, edits map
 	}
 	edits[df.Name()] = append(edits[df.Name()], edit{df.Offset(start), df.Offset(c.decl.End()), ""})
 	return true, ""
+}
+
+// hoistable: call, nested in stmt (path is the chain of nodes from stmt down to call), can be evaluated in front of the
+// statement: no other call, receive or function literal comes lexically before it in the statement (Go evaluates calls
+// and receives in lexical order; conversions and len/cap are not calls), it is not under the right operand of && or ||,
+// and the statement does not declare what the call reads.
+func hoistable(stmt ast.Stmt, call *ast.CallExpr, path []ast.Node, info *types.Info) bool {
+	for i, n := range path {
+		switch x := n.(type) {
+		case *ast.BinaryExpr:
+			if (x.Op == token.LAND || x.Op == token.LOR) && i+1 < len(path) && path[i+1] == ast.Node(x.Y) {
+				return false
+			}
+		case *ast.FuncLit:
+			return false
+		}
+	}
+	ok := true
+	ast.Inspect(stmt, func(n ast.Node) bool {
+		if n == nil || !ok {
+			return false
+		}
+		if n.Pos() >= call.Pos() && n.End() <= call.End() {
+			return false // the call itself and its arguments
+		}
+		switch x := n.(type) {
+		case *ast.FuncLit:
+			ok = false
+		case *ast.UnaryExpr:
+			if x.Op == token.ARROW && x.Pos() < call.Pos() {
+				ok = false
+			}
+		case *ast.CallExpr:
+			if x.Pos() <= call.Pos() && x.End() >= call.End() {
+				return true // an enclosing call: evaluated after its arguments
+			}
+			if x.Pos() < call.Pos() {
+				if tv, have := info.Types[x.Fun]; have && tv.IsType() {
+					return true
+				}
+				if id, isId := x.Fun.(*ast.Ident); isId {
+					if _, isB := info.Uses[id].(*types.Builtin); isB && (id.Name == "len" || id.Name == "cap") {
+						return true
+					}
+				}
+				ok = false
+			}
+		}
+		return true
+	})
+	return ok
 }
 
 // fixImports adds the imports that moved code needs (by the names the package's files use for them) and drops the
@@ -759,6 +945,27 @@ func rewriteBody(bodyText string, outs []string, named []string, label string) (
 		return "", err
 	}
 	fd := f.Decls[0].(*ast.FuncDecl)
+	// labels are function-scoped: the body's own labels get a name that is unique to this call site
+	ownLabels := map[string]bool{}
+	ast.Inspect(fd.Body, func(n ast.Node) bool {
+		if ls, ok := n.(*ast.LabeledStmt); ok {
+			ownLabels[ls.Label.Name] = true
+		}
+		return true
+	})
+	if len(ownLabels) > 0 {
+		ast.Inspect(fd.Body, func(n ast.Node) bool {
+			switch x := n.(type) {
+			case *ast.LabeledStmt:
+				x.Label.Name = x.Label.Name + "_" + label
+			case *ast.BranchStmt:
+				if x.Label != nil && ownLabels[x.Label.Name] {
+					x.Label.Name = x.Label.Name + "_" + label
+				}
+			}
+			return true
+		})
+	}
 	var visit func(s ast.Stmt, label string) ast.Stmt
 	rewrite := func(list []ast.Stmt, label string) []ast.Stmt {
 		for i, s := range list {
